@@ -148,6 +148,12 @@ func runRPCScenario(e *rpcEnv, r *rand.Rand, sc rpcScenario) scenarioResult {
 	finished := withTimeout(40*time.Second, wg.Wait)
 	if !finished {
 		out.Stalled, out.Dump = isStalled()
+		// "nobody can move" includes the peer: if the reference server still holds answers, the client is merely waiting
+		e.mu.Lock()
+		if len(e.pending) > 0 {
+			out.Stalled = false
+		}
+		e.mu.Unlock()
 	}
 	e.quiesce(2 * time.Second)
 	out.HookSeq = theHooks.stop()
